@@ -6,7 +6,7 @@ ids=${*:-$(ls seeded | grep '^C')}
 for s in $ids; do
   prop=$(python3 -c "import json;print(json.load(open('seeded/$s/meta.json'))['breaks_property'])")
   git -C /repo diff --quiet || { echo "/repo has uncommitted changes"; exit 3; }
-  git -C /repo apply seeded/$s/patch.diff || { echo "SEED $s patch-does-not-apply"; continue; }
+  git -C /repo apply /verif/seeded/$s/patch.diff || { echo "SEED $s patch-does-not-apply"; continue; }
   out=$(./check $prop --tier quick 2>&1 | grep -E "^(OK|FAIL)" | tail -1)
   git -C /repo checkout -- .
   case "$out" in FAIL*) echo "SEED $s caught  [$out]";; *) echo "SEED $s MISSED  [$out]";; esac
